@@ -13,6 +13,7 @@ Values (what `sym` maps places to, and what evaluating an operand yields):
   ('top',)                       nothing known
 All arithmetic is over mathematical integers; callers clip to type ranges (wrap-aware).
 """
+import os
 
 NEG_INF = None
 TOP = ("top",)
@@ -325,30 +326,37 @@ class State:
         return best
 
     def bound_diff(self, ta, tb, depth=3):
-        """least c (or None) with  ta - tb <= c  derivable; ta/tb terms or None (= constant 0)"""
+        """least c (or None) with  ta - tb <= c  derivable through at most `depth` relational hops and a final direct step;
+        ta/tb terms or None (= constant 0)"""
         if ta == tb:
             return 0
-        best = None
-        # direct
-        if ta is not None and tb is not None:
-            c = self.rel.get((ta, tb))
-            if c is not None:
-                best = c
-        ha = 0 if ta is None else self.iv.get(ta, FULL)[1]
-        lb = 0 if tb is None else self.iv.get(tb, FULL)[0]
-        if ha is not None and lb is not None:
-            c = ha - lb
-            if best is None or c < best:
-                best = c
-        if depth > 0 and ta is not None:
-            # one relational hop: ta - m <= c1, then m - tb
-            for (x, m), c1 in self.rel.items():
-                if x == ta and m != tb:
-                    c2 = self.bound_diff(m, tb, depth - 1) if depth > 1 else self._direct(m, tb)
-                    if c2 is not None:
-                        c = c1 + c2
-                        if best is None or c < best:
-                            best = c
+        best = self._direct(ta, tb)
+        if depth > 0 and ta is not None and self.rel:
+            idx = self._rel_index()
+            if ta not in idx:
+                return best
+            dist = {ta: 0}
+            frontier = {ta: 0}
+            for _ in range(depth):
+                nxt = {}
+                for x, cx in frontier.items():
+                    for m, c1 in idx.get(x, ()):
+                        c = cx + c1
+                        d0 = dist.get(m)
+                        if d0 is None or c < d0:
+                            dist[m] = c
+                            nxt[m] = c
+                if not nxt:
+                    break
+                frontier = nxt
+            for m, cm in dist.items():
+                if m == ta or m == tb:
+                    if m == tb and m != ta and (best is None or cm < best):
+                        best = cm
+                    continue
+                c2 = self._direct(m, tb)
+                if c2 is not None and (best is None or cm + c2 < best):
+                    best = cm + c2
         return best
 
     def _direct(self, ta, tb):
@@ -479,15 +487,21 @@ class State:
         keep_len: element writes through the place keep its length term."""
         if not keep_len:
             self.mark_dirty(place)
+        memo = {}
+
         def hit(pl):
             # a fact about `pl` depends on what is stored at `place` iff pl is at/below it, or one of its index
             # values is; writes *below* pl (elements of a container whose length is meant, …) do not affect it
-            if under(pl, place):
-                return True
-            for ip in ix_places(pl):
-                if under(ip, place):
-                    return True
-            return False
+            r = memo.get(pl)
+            if r is None:
+                r = under(pl, place)
+                if not r:
+                    for ip in ix_places(pl):
+                        if under(ip, place):
+                            r = True
+                            break
+                memo[pl] = r
+            return r
 
         def keep(t):
             return keep_len and t[0] == "len" and term_place(t) == place
@@ -497,8 +511,15 @@ class State:
             self.lin = {p: ab for p, ab in self.lin.items() if not hit(p) and not any(x[1] is not None and hit(term_place(x[1])) for x in ab[:2])}
         for t in [t for t in self.iv if hit(term_place(t)) and not keep(t)]:
             del self.iv[t]
-        for k in [k for k in self.rel if any(hit(term_place(t)) and not keep(t) for t in k)]:
-            del self.rel[k]
+        if self.rel:
+            terms = set()
+            for k in self.rel:
+                terms.add(k[0])
+                terms.add(k[1])
+            bad = {t for t in terms if hit(term_place(t)) and not keep(t)}
+            if bad:
+                for k in [k for k in self.rel if k[0] in bad or k[1] in bad]:
+                    del self.rel[k]
         dead = []
         for p, v in self.sym.items():
             if hit(p):
@@ -534,21 +555,34 @@ class State:
             rest = pl[1][len(prefix[1]):]
             return any((s in names) for s in rest if isinstance(s, str))
 
+        memo = {}
+
         def hit(pl):
-            if hit1(pl):
-                return True
-            for ip in ix_places(pl):
-                if hit1(ip):
-                    return True
-            return False
+            r = memo.get(pl)
+            if r is None:
+                r = hit1(pl)
+                if not r:
+                    for ip in ix_places(pl):
+                        if hit1(ip):
+                            r = True
+                            break
+                memo[pl] = r
+            return r
         if self.taint:
             self.taint = frozenset(t for t in self.taint if not hit(term_place(t)))
         if self.lin:
             self.lin = {p: ab for p, ab in self.lin.items() if not hit(p) and not any(x[1] is not None and hit(term_place(x[1])) for x in ab[:2])}
         for t in [t for t in self.iv if hit(term_place(t))]:
             del self.iv[t]
-        for k in [k for k in self.rel if any(hit(term_place(t)) for t in k)]:
-            del self.rel[k]
+        if self.rel:
+            terms = set()
+            for k in self.rel:
+                terms.add(k[0])
+                terms.add(k[1])
+            bad = {t for t in terms if hit(term_place(t))}
+            if bad:
+                for k in [k for k in self.rel if k[0] in bad or k[1] in bad]:
+                    del self.rel[k]
         dead = []
         for p, v in self.sym.items():
             if hit(p):
@@ -737,6 +771,24 @@ class State:
                 lo = s.iv.get(t, FULL)[0]
                 if hi is None or lo is None or hi - lo > d:
                     s.rel[(xt, t)] = d
+        # terms that are one constant on this side and another constant on the other side (a counter and a length after the
+        # first trip round a loop: 0/0 joined with 1/1) keep their difference:  x - y <= max over the two sides
+        def singles(st_):
+            out = {}
+            for t_, a_ in st_.iv.items():
+                if a_[0] is not None and a_[0] == a_[1] and t_[0] in ("v", "len"):
+                    out[t_] = a_[0]
+            for p_, v_ in st_.sym.items():
+                if v_[0] == "n" and v_[1] is None:
+                    out[("v", p_[0], p_[1])] = v_[2]
+            return out
+        sa, sb = singles(self), singles(other)
+        chg = [(t, a, sb[t]) for t, a in sa.items() if t in sb and sb[t] != a]
+        if 2 <= len(chg) <= 6 and not os.environ.get('VERIF_NO_CHG'):
+            for (x, xa, xb) in chg:
+                for (y, ya, yb) in chg:
+                    if x != y and (x, y) not in s.rel:
+                        s.rel[(x, y)] = max(xa - ya, xb - yb)
         # boolean flag correlation: a local that is the constant true on one side and false on the other remembers
         # the facts that distinguish the two sides ("is_short == true  =>  ch <= 255 ...")
         for p in set(self.sym) | set(other.sym):
@@ -764,6 +816,30 @@ class State:
                 s.sym[p] = ("b", ("guarded", tuple(fa), tuple(fb)))
             else:
                 s.sym[p] = ("b", ("guarded", tuple(fb), tuple(fa)))
+        return s
+
+    def meet_facts(self, other):
+        """conjunction of two sound descriptions of the same program point: `self` (kept as the base: its aliases, dirty and
+        taint sets are sound on their own) strengthened with the intervals, relations, aliases and remembered sums of `other`.
+        Returns `self`'s copy unchanged if the conjunction looks contradictory."""
+        if self.bottom or other.bottom:
+            return self.copy()
+        s = self.copy()
+        for t, b in other.iv.items():
+            a = s.iv.get(t, FULL)
+            m = iv_meet(a, b)
+            if iv_empty(m):
+                return self.copy()
+            if m != FULL:
+                s.iv[t] = m
+        for k, d in other.rel.items():
+            c = s.rel.get(k)
+            if c is None or d < c:
+                s.rel[k] = d
+        # (aliases of `other` are not taken over: which alias a place is read through decides which relations are found)
+        for p, ab in other.lin.items():
+            if p not in s.lin:
+                s.lin[p] = ab
         return s
 
     def _bound_with_alias(self, x, y, p, alias, idx=None):
@@ -813,11 +889,33 @@ class State:
                 hi = None
             if (lo, hi) != FULL:
                 s.iv[t] = (lo, hi)
+        idx = None
         for k, d in new.rel.items():
             c = self.rel.get(k)
+            if c is None:
+                # the old state may imply the relation without holding it (a place that was still a constant there)
+                if idx is None:
+                    idx = self._rel_index()
+                c = self.bound1(k[0], k[1], idx)
+                if c is None:
+                    ia, ib = self._term_iv(k[0]), self._term_iv(k[1])
+                    if ia[1] is not None and ib[0] is not None:
+                        c = ia[1] - ib[0]
+                if c is not None and c > (1 << 20):
+                    c = None
             if c is not None and d <= c:
                 s.rel[k] = c
         return s
+
+    def _term_iv(self, t):
+        a = self.iv.get(t)
+        if a is not None:
+            return a
+        if t[0] == "v":
+            v = self.sym.get(term_place(t))
+            if v is not None and v[0] in ("n", "iv"):
+                return self.val_iv(v)
+        return FULL
 
     def leq(self, other):
         """self ⊑ other (other is at least as weak)"""
